@@ -62,6 +62,7 @@ structure Case where
   commits : Array Commit := #[]
   vcd : Array String := #[]
   tevs : Array TV.TEv := #[]
+  tphase : Array Nat := #[]
   tv : Array String := #[]
   q : Array (Bool × String) := #[]
   sel : String := ""
@@ -75,6 +76,9 @@ def parseRaw (s : String) : RVec :=
 
 def parseB4s (s : String) : List B4 :=
   if s == "-" then [] else s.toList.reverse.map fun c => if c == '0' then .f else if c == '1' then .t else .x
+
+def parseXBits (s : String) : List TV.XBit :=
+  if s == "-" then [] else s.toList.reverse.map fun c => if c == '0' then .f else if c == '1' then .t else if c == 'z' then .z else .x
 
 def parsePath (s : String) : List (Nat × Str) :=
   if s == "-" then [] else (s.splitOn ",").map fun e =>
@@ -252,6 +256,31 @@ def checkCase (c : Case) (st0 : Stats) : IO Stats := do
     tj := tj + 1
     for g in r.1 do groupsA := groupsA.push g
   let groups := groupsA.toList
+  -- preconditions of the test-vector theorems on the real callback sequence
+  let rec mono (lo : Rat) : List TV.TEv → Bool
+    | [] => true
+    | .newPhase _ t :: r => decide (lo ≤ t) && mono t r
+    | .finish t :: r => decide (lo ≤ t) && r.isEmpty
+    | .powerOn :: _ => false
+    | _ :: r => mono lo r
+  let tvPre := match c.tevs.toList with
+    | .powerOn :: rest => mono 0 rest && TV.passes none (.powerOn :: rest)
+    | _ => false
+  if !tvPre then
+    fail "DIFF" "what=tv-precondition the callback sequence violates Mono / passes (model does not cover it)"
+    st := { st with diffs := st.diffs + 1, precondViolations := st.precondViolations + 1 }
+  -- tv_after_edge_strict on the real run: a group that is not scheduled strictly behind its flush start holds pre-edge records only
+  let track := (TV.phaseTrack none c.tevs.toList).toArray
+  for g in groups do
+    if !(g.start < g.target) then
+      for x in g.checks ++ g.sets ++ g.rsts do
+        let ok := match track[x.tag]? with
+          | some (some (.before, t)) => t == g.stop
+          | some (some (.during, t)) => t == g.stop
+          | _ => false
+        if !ok then
+          fail "PROPFAIL" s!"kind=tv-after-edge-on-edge statement {String.ofList x.name} (callback {x.tag}) was recorded after the flush at {g.stop}s and is written at that time"
+          st := { st with propfails := st.propfails + 1 }
   let tvModel := (groups.flatMap TV.Group.lines).toArray
   let mut tvDiff := false
   if tvModel.size != c.tv.size then
@@ -284,27 +313,54 @@ def checkCase (c : Case) (st0 : Stats) : IO Stats := do
     written := written + realAdv.getD gi g.adv
     gi := gi + 1
     let w : Rat := (written : Rat) / TV.psPerSec
-    if !(w ≤ g.target && g.target < w + 1 / TV.psPerSec) && !driftReported then
+    if !(w ≤ g.target && g.target < w + 1 / TV.psPerSec) && !driftReported && !tvDiff then
       driftReported := true
       fail "PROPFAIL" s!"kind=tv-drift group={gi} written={written}ps exact_target={g.target}s (real ADV values against the exact schedule)"
       st := { st with propfails := st.propfails + 1 }
     if w != g.target then st := { st with tvNonzeroRemainders := st.tvNonzeroRemainders + 1 }
   -- (iii) replay outcomes; classify failures by the group the statement belongs to
-  let mut owner : Array TV.Group := #[]
+  -- root cause "recorded after the clock edge, written exactly on it": a statement recorded in the AFTER phase of a time step whose
+  -- next flush (re-entered time step, or the destructor) happens at the same simulation time, i.e. with an empty interval
+  let ntev := c.tevs.size
+  -- (phase number, time) of the last phase notification before each callback
+  let mut lastPhase : Array (Nat × Rat) := Array.replicate ntev (99, 0)
+  let mut curPhase : Nat × Rat := (99, 0)
+  for j in [0:ntev] do
+    match c.tevs[j]! with
+    | .newPhase _ t => curPhase := (c.tphase.getD j 99, t)
+    | _ => pure ()
+    lastPhase := lastPhase.set! j curPhase
+  -- recorded when the clock edge of that time step had already happened (AFTER phase) or must not be seen by it (override in the
+  -- DURING phase), but written in an empty flush interval, i.e. exactly on the edge
+  let onEdge (g : TV.Group) (x : TV.Tagged) : Bool :=
+    g.start == g.stop &&
+    (match lastPhase[x.tag]?, c.tevs[x.tag]? with
+     | some (2, t), _ => t == g.stop
+     | some (1, t), some (.set true _ _) => t == g.stop
+     | some (1, t), some (.rst true _ _) => t == g.stop
+     | _, _ => false)
+  let mut owner : Array (TV.Group × Bool) := #[]
+  let mut tainted := false
   for g in groups do
-    for _ in g.checks do owner := owner.push g
-    for _ in g.rsts do owner := owner.push g
+    if (g.checks ++ g.sets ++ g.rsts).any (fun x => onEdge g x) then tainted := true
+    for _ in g.checks do owner := owner.push (g, tainted)
+    for _ in g.rsts do owner := owner.push (g, tainted)
   let mut k := 0
   let mut reported : Std.HashMap String Nat := {}
   for (ok, text) in c.q do
     st := { st with replayed := st.replayed + 1, ops := st.ops + 1 }
     if !ok then
       st := { st with replayFails := st.replayFails + 1 }
-      let kind := match owner[k]? with
+      -- when the model no longer describes the file, classify by the written time alone: exactly on a time step of the simulation?
+      let wps := ((text.splitOn " ").getLast?.getD "0").toNat!
+      let onStep := c.tevs.any fun e => match e with
+        | .newPhase .after t => t == (wps : Rat) / TV.psPerSec
+        | _ => false
+      let kind := if tvDiff then (if onStep then "replay-statement-on-time-step" else "replay-check-failed") else match owner[k]? with
         | none => "replay-unclassified"
-        | some g =>
+        | some (g, tainted) =>
           if g.interval == 0 && g.phase == 0 && !g.sets.isEmpty then "replay-poweron-check-before-set"
-          else if g.start == g.stop then "replay-empty-interval-at-edge"
+          else if tainted then "replay-empty-interval-at-edge"
           else if (g.stop - g.start) / ((2 + 1 : Nat) : Rat) < 1 / TV.psPerSec then "replay-sub-ps-interval"
           else "replay-check-failed"
       if !reported.contains kind then
@@ -337,9 +393,11 @@ def feed (line : String) (c : Case) (st : Stats) : IO (Case × Stats) := do
   | ["E", "K", i, v] => return ({ c with evs := c.evs.push (.clock i.toNat! (v == "1")) }, st)
   | ["E", "R", i, v] => return ({ c with evs := c.evs.push (.reset i.toNat! (v == "1")) }, st)
   | ["X", "P"] => return ({ c with tevs := c.tevs.push .powerOn }, st)
-  | ["X", "N", p, n, d] => return ({ c with tevs := c.tevs.push (.newPhase (p == "2") (ratOf n.toNat! d.toNat!)) }, st)
+  | ["X", "N", p, n, d] =>
+    let c := { c with tphase := (c.tphase ++ Array.replicate (c.tevs.size - c.tphase.size) 99).push p.toNat! }
+    return ({ c with tevs := c.tevs.push (.newPhase (if p == "0" then .before else if p == "1" then .during else .after) (ratOf n.toNat! d.toNat!)) }, st)
   | ["X", "M"] => return ({ c with tevs := c.tevs.push .microTick }, st)
-  | ["X", "S", du, name, bits] => return ({ c with tevs := c.tevs.push (.set (du == "1") (optStr name) (parseB4s bits)) }, st)
+  | ["X", "S", du, name, bits] => return ({ c with tevs := c.tevs.push (.set (du == "1") (optStr name) (parseXBits bits)) }, st)
   | ["X", "R", du, name, v] => return ({ c with tevs := c.tevs.push (.rst (du == "1") (optStr name) (v == "1")) }, st)
   | ["X", "C", name, ib, bits] => return ({ c with tevs := c.tevs.push (.read (optStr name) (ib == "1") (parseB4s bits)) }, st)
   | ["X", "F", n, d] => return ({ c with tevs := c.tevs.push (.finish (ratOf n.toNat! d.toNat!)) }, st)
